@@ -298,8 +298,14 @@ class BCRun(object):
             if data:
                 c.st.bufferReceived(data)
 
-    def _do_lost(self):
+    def _do_lost(self, kind="done"):
+        """connectionLost(reason): ConnectionDone (clean close), ConnectionLost (unclean) or some other failure -
+        `_connectionLost` only logs the reason, and the model ignores it"""
+        from twisted.internet import error
+
         c, self.cur = self.cur, None
+        c.ct.disconnectReason = {"done": error.ConnectionDone("Connection done"), "lost": error.ConnectionLost("lost"),
+                                 "other": InjectedLossReason("other")}[kind]
         c.ct.disconnecting = True
         c.ct.disconnected = True
         c.st.disconnecting = True
@@ -441,12 +447,15 @@ class BCRun(object):
                 except Exception as e:  # the reactor logs it and drops the connection
                     n = e.__class__.__name__
                     self.log.append("raise underflow" if n == "BufferUnderflowError" else "raise other:" + n)
-                    self._do_lost()
+                    self._do_lost("other")
         elif op == "lost":
+            kind = w[1] if len(w) > 1 else "done"
+            if kind not in ("done", "lost", "other"):
+                raise ValueError("unknown event %r" % (w,))
             if self.cur is None:
                 self.log.append("badOp")
             else:
-                self._do_lost()
+                self._do_lost(kind)
         elif op == "close":
             if not self.close_called:
                 self.close_called = True
